@@ -34,7 +34,9 @@ def check(an, rep, tier):
     ds = (2, 3) if tier == 'quick' else (2, 3, 4)
     wh = {'optima.optima_tt_beam', 'optima.optima_tt_max', 'optima.optima_tt',
           'optima.optima_qtt', 'optima_func.optima_func_tt_beam',
-          'optima_func._step_top_k'}
+          'optima_func._step_top_k',
+          # the shifted tensor of optima_tt is built with sub / const / mul
+          'act_two.add', 'act_two.sub', 'act_two.mul', 'tensors.const'}
     runs = sweep(an, rep, ['optima.optima_tt_beam', 'optima.optima_tt_max',
                            'optima.optima_tt'], ds,
                  rules=S_RULES + ['S-layout'], wheres=wh)
